@@ -607,6 +607,8 @@ impl AssemblyCode {
                             flags = FlagsState::Y;
                         }
                         AsmMnemonic::DEC | AsmMnemonic::INC => {
+                            // The flags now describe the modified memory location
+                            flags = FlagsState::Unknown;
                             if let Some(v) = &accumulator {
                                 if v.eq(&inst.dasm_operand) {
                                     accumulator = None;
@@ -624,6 +626,7 @@ impl AssemblyCode {
                             }
                         }
                         AsmMnemonic::INX | AsmMnemonic::DEX => {
+                            flags = FlagsState::X;
                             if let Some(v) = &accumulator {
                                 if v.ends_with(",X") {
                                     accumulator = None;
@@ -637,6 +640,7 @@ impl AssemblyCode {
                             x_register = None;
                         }
                         AsmMnemonic::INY | AsmMnemonic::DEY => {
+                            flags = FlagsState::Y;
                             if let Some(v) = &accumulator {
                                 if v.ends_with(",Y") {
                                     accumulator = None;
@@ -650,6 +654,7 @@ impl AssemblyCode {
                             y_register = None;
                         }
                         AsmMnemonic::TAX => {
+                            flags = FlagsState::X;
                             x_register = accumulator.clone();
                             if let Some(v) = &accumulator {
                                 if v.ends_with(",X") {
@@ -664,6 +669,7 @@ impl AssemblyCode {
                             }
                         }
                         AsmMnemonic::TAY => {
+                            flags = FlagsState::Y;
                             y_register = accumulator.clone();
                             if let Some(v) = &accumulator {
                                 if v.ends_with(",Y") {
@@ -705,9 +711,14 @@ impl AssemblyCode {
                         | AsmMnemonic::EOR
                         | AsmMnemonic::AND
                         | AsmMnemonic::ORA => accumulator = None,
-                        AsmMnemonic::LSR | AsmMnemonic::ASL => accumulator = None,
+                        AsmMnemonic::LSR | AsmMnemonic::ASL => {
+                            flags = FlagsState::Unknown;
+                            accumulator = None
+                        }
+                        AsmMnemonic::ROL | AsmMnemonic::ROR => flags = FlagsState::Unknown,
                         AsmMnemonic::PLA | AsmMnemonic::PHA => accumulator = None,
                         AsmMnemonic::JSR | AsmMnemonic::JMP => {
+                            flags = FlagsState::Unknown;
                             accumulator = None;
                             x_register = None;
                             y_register = None;
